@@ -144,6 +144,8 @@ def pack_existing(a):
         return None, [12, -1] + enc_z(a._flags)
     except TypeError:
         return None, [10, -1] + enc_z(a._flags)
+    except Exception:  # noqa
+        return None, [199, -1] + enc_z(a._flags)
     raw = m.asbytes()
     return raw, [0] + list(raw) + [-1] + enc_z(a._flags)
 
@@ -157,6 +159,8 @@ def impl_pack(spec):
         a._pack(m)
     except struct.error:
         return None, [12], None
+    except Exception:  # noqa  (any other class: not what the model predicts; never stops the run)
+        return None, [199], None
     raw = m.asbytes()
     return raw, [0] + list(raw), a._flags
 
@@ -401,7 +405,7 @@ def history_case(ctx, case):
         ctx.fail("stale-flags-reencode-raises",
                  "_pack of a previously decoded/encoded and then edited object raises although its fields are valid "
                  "(flags left over from the earlier call are used)", case=case, expected=wire,
-                 observed={10: "TypeError", 12: "struct.error"}[canon[0]])
+                 observed={10: "TypeError", 12: "struct.error"}.get(canon[0], "another exception"))
         return prior, canon
     if raw != wire or a._flags != flags:
         ctx.fail("stale-flags-reencode",
